@@ -255,6 +255,23 @@ def full_runs(chk):
         except Exception as e:  # noqa
             chk.notes.append("full run raised %s (reported under C04)" % type(e).__name__)
             continue
+        if r < nrun and r % 2 == 1:
+            # the same with escape switched on (number-normalised, before / after / across a core-collapse time): with every remnant retained
+            # the number of objects changes by the integrated escape rate and by nothing else - every class of object is stripped
+            rate_ = -float(rng.choice([5.0, 20.0])) * kw["N0"] / 5e5
+            kwe = dict(kw, esc_rate=rate_, esc_norm="N", tcc=[1e9, 0.0, 4000.0][(r // 2) % 3])      # the first such run is always wholly before core collapse
+            try:
+                me = emf.EvolvedMF.from_powerlaw(**kwe)
+            except Exception as e:  # noqa
+                chk.notes.append("full run with escape raised %s (reported under C04)" % type(e).__name__)
+                me = None
+            if me is not None and me.converged:
+                tot_e = me.Ns.sum(axis=1) + np.c_[me.Nr].sum(axis=1)
+                want_e = kw["N0"] + rate_ * np.asarray(kw["tout"], dtype=float)
+                chk.count("full runs with escape, all remnants retained")
+                if np.any(np.abs(tot_e - want_e) > 1e-6 * kw["N0"] + 1e-3 * abs(rate_) * np.asarray(kw["tout"], dtype=float)):
+                    chk.fail("with all remnants retained the total number of objects changes only by the integrated escape rate", kwe,
+                             dict(N=tot_e.tolist(), expected=want_e.tolist(), BH_number=[float(x.sum()) for x in me.Nr.BH]))
         tot = m.Ns.sum(axis=1) + np.c_[m.Nr].sum(axis=1)
         chk.count("full runs")
         if np.any(np.abs(tot - kw["N0"]) > 1e-9 * kw["N0"]):
